@@ -361,6 +361,19 @@ class Program(object):
         return r
 
 
+LOGGER_METHODS = ("debug", "info", "warning", "warn", "error", "exception", "critical", "log")
+
+
+def is_logging_call(call):
+    """<logger>.debug/info/warning/error/exception/critical/log(...) where the receiver is spelled as a logger
+    (`_logger`, `self._logger`, `logging`, `logging.getLogger(...)`).  Assumption shared by all rules: logging does not raise."""
+    f = call.func
+    if not (isinstance(f, ast.Attribute) and f.attr in LOGGER_METHODS):
+        return False
+    txt = dump(f.value).lower()
+    return "logger" in txt or txt.startswith("logging")
+
+
 def calls_in(node):
     return [n for n in ast.walk(node) if isinstance(n, ast.Call)]
 
